@@ -170,3 +170,41 @@ void h_pl_create (void)
   VACUITY_CANARY ();
 }
 void h_pl_fin (void) { world (); pl_fin (); if (gh_pl0 == NULL) VACUITY_CANARY_N ("no list"); else VACUITY_CANARY_N ("list released"); }
+
+/* ---- G.ctx (C14, F18): build_start_set on an object that has been parsed before.  The terminal-set table of the grammar persists
+   across parses, so inserting the empty context may report "already there" (a negative number); the situation table must never be
+   indexed with it. ---- */
+int gh_inserted;
+int term_set_insert_c (term_set_el_t *set)
+__CPROVER_assigns (gh_inserted)
+/* either a new number, or -(number)-1 of the equal set that is already in the table; the empty context, when present, has number 0 */
+__CPROVER_ensures (__CPROVER_return_value == 0 || __CPROVER_return_value == -1)
+__CPROVER_ensures (gh_inserted == 1)
+;
+term_set_el_t *term_set_create_c (void) __CPROVER_assigns () __CPROVER_ensures (__CPROVER_is_fresh (__CPROVER_return_value, 8));
+void term_set_clear_c (term_set_el_t *s) __CPROVER_assigns (*s) __CPROVER_ensures (1);
+void set_new_start_c (void) __CPROVER_assigns () __CPROVER_ensures (1);
+struct sit *sit_create_c (struct rule *rule, int pos, int context)
+__CPROVER_requires (context >= 0)                                        /* index into the situation table */
+__CPROVER_requires (grammar->lookahead_level <= 1 ? context == 0 : 1)
+__CPROVER_assigns ()
+__CPROVER_ensures (__CPROVER_is_fresh (__CPROVER_return_value, sizeof (struct sit)))
+;
+void set_new_add_start_sit_c (struct sit *sit, int dist) __CPROVER_assigns () __CPROVER_ensures (1);
+int set_insert_c (void) __CPROVER_assigns () __CPROVER_ensures (__CPROVER_return_value == 1);
+void expand_new_start_set_c (void) __CPROVER_assigns (new_set) __CPROVER_ensures (1);
+void build_start_set_c (void)
+__CPROVER_requires (grammar != NULL && grammar->axiom != NULL && pl != NULL)     /* harness supplies the objects */
+__CPROVER_assigns (gh_inserted, new_set, *pl)
+__CPROVER_ensures (1)
+;
+void h_build_start_set (void)
+{
+  struct symb *ax; struct rule *r1, *r2; _Bool two;
+  world (); __CPROVER_assume (grammar != NULL && pl != NULL);
+  ax = malloc (sizeof (*ax)); r1 = malloc (sizeof (*r1)); r2 = malloc (sizeof (*r2)); __CPROVER_assume (ax != NULL && r1 != NULL && r2 != NULL);
+  grammar->axiom = ax; ax->u.nonterm.rules = r1; r1->lhs_next = two ? r2 : NULL; r2->lhs_next = NULL;     /* `$S : S $eof' and possibly `$S : error $eof' */
+  HAVOC (gh_inserted); HAVOC (new_set);
+  build_start_set ();
+  VACUITY_CANARY ();
+}
